@@ -17,20 +17,29 @@ func ListFiles(reader io.Reader) ([]string, error) {
 		return nil, err
 	}
 
-	// Always use the latest checkpoint
-	ckpt := listDoc.Checkpoints[len(listDoc.Checkpoints)-1]
-
+	// The document can list several retained checkpoints and the caller may
+	// need any of them: a savepoint is written for the job checkpoint that just
+	// completed while this database may already have recorded a newer one. List
+	// the files of every checkpoint, each file once.
 	fileNames := []string{}
+	listed := make(map[string]struct{})
+	for _, ckpt := range listDoc.Checkpoints {
+		// Add WAL file names to output
+		for _, w := range ckpt.WALs {
+			if _, ok := listed[w.URI]; !ok {
+				listed[w.URI] = struct{}{}
+				fileNames = append(fileNames, w.URI)
+			}
+		}
 
-	// Add WAL file names to output
-	for _, w := range ckpt.WALs {
-		fileNames = append(fileNames, w.URI)
-	}
-
-	// Add all table names to the output
-	for _, level := range ckpt.Levels {
-		for _, table := range level {
-			fileNames = append(fileNames, table.URI)
+		// Add all table names to the output
+		for _, level := range ckpt.Levels {
+			for _, table := range level {
+				if _, ok := listed[table.URI]; !ok {
+					listed[table.URI] = struct{}{}
+					fileNames = append(fileNames, table.URI)
+				}
+			}
 		}
 	}
 
